@@ -240,6 +240,9 @@ pub fn run(ctx: &Ctx) -> (&'static str, &'static str) {
     } else {
         vec![0, 1, 2, 31, 32, 33, 47, 48, 49, 63, 64, 65, 96, 127, 128, 129, 255, 256, 257, 511, 512, 8159, 8160, 8161, 16320, 16321, 65535]
     };
+    // requests that do not fit the two-byte length field: whatever their low 16 bits say, XMD must abort (a length narrowed to
+    // u16 before the 255-block test would pass 65536 + small)
+    let lens: Vec<usize> = lens.into_iter().chain([65536usize, 65537, 65536 + 32, 65536 + 320, 65536 + 8160, 65536 + 16320, 2 * 65536 + 48, (1 << 24) + 64]).collect();
     let inj = ctx.injecting("C13");
     let nkinds = if quick { 2 } else { 3 };
     let rad = [lens.len() as u64, dl.len() as u64, DST_KINDS, ml.len() as u64, nkinds as u64, 4];
@@ -258,6 +261,9 @@ pub fn run(ctx: &Ctx) -> (&'static str, &'static str) {
             let len = lens[d[0]];
             let want = expand(h, &msg, &dst, len);
             let is_xof = matches!(h, Expander::XofShake128 | Expander::XofShake256);
+            if is_xof && len > 65535 {
+                return Ok(""); // outside the stated domain of the XOF expander (and it would squeeze that many bytes)
+            }
             let got = guard(|| lib_expand(h, &msg, &dst, len));
             match (want, got) {
                 (None, Err(_)) => Ok("abort beyond 255 blocks"),
